@@ -18,7 +18,7 @@ RULE = ("tasks_limit {1,2,3,10,1000} x 1-3 queues sharing the limit x duration p
         "arrivals, failures, n bucket); trivial = runs where the limit was never reached and limit < 1000")
 ASSUMPTIONS = ["Redis and RabbitMQ are wire-level fakes", "virtual time; 'eventually' restated as: all n jobs executed by sum(d)/limit + max(d) + n*delta + last arrival + 12 s, refill of a freed slot within 3 s"]
 EVAL_COUNTER = "entries_judged"
-REQUIRED = ["entries_judged", "runs_saturated", "arrival_slot_free", "arrival_burst", "refills_judged", "thread_runs", "thread_overrun_runs", "thread_rendezvous_runs"]
+REQUIRED = ["entries_judged", "runs_saturated", "arrival_slot_free", "arrival_burst", "refills_judged", "thread_runs", "thread_overrun_runs", "thread_rendezvous_runs", "ttl_expired_while_waiting_for_a_slot"]
 CASE_TIMEOUT = 150
 
 LIMITS = [1, 2, 3, 10, 1000]
@@ -39,6 +39,11 @@ def gen_cases(tier, seed):
                           "seed": rnd.randrange(10**6), "latency": None if kind == "mem" else rnd.choice([None, 0.002]),
                           # RabbitMQ takes the consumers away while the worker runs (consumer cancel notification): they come back
                           "srv_cancel": kind == "rabbit" and ci % 3 == 0})
+    # a message with a time-to-live is taken while every slot is busy and outlives it while it waits for one: whatever becomes
+    # of that message, the queue is served again as soon as a slot is free
+    for kind in ("mem", "redis", "rabbit"):
+        for tl in (1, 2):
+            cases.append({"kind": kind, "type": "ttl_wait", "limit": tl, "seed": rnd.randrange(10**6), "latency": None if kind == "mem" else 0.002})
     # real threads, real time: synchronous actors through the ThreadPoolExecutor path of asyncify (no virtual loop)
     for l in (1, 2, 3):
         cases.append({"kind": "mem", "type": "threads", "limit": l, "n": 14, "seed": rnd.randrange(10**6)})
@@ -137,6 +142,45 @@ def make_durations(profile, n, rnd):
     ds = [0.2] * n
     ds[rnd.randrange(n)] = 15.0
     return ds
+
+
+async def ttl_wait_scenario(loop, case, out, stats, fps):
+    from rv.wl import World, run_worker
+
+    kind, limit = case["kind"], case["limit"]
+    w = World(loop, kind, converter="basic", seed=case["seed"], latency=case["latency"])
+    try:
+        await w.open()
+        r = w.router()
+        w.scripted_actor(r, "act")
+        await w.conn.message_broker.queue_declare("default")
+        plan = [("long", 3.0, None)] * limit + [("short-lived", 0.05, 1.0)] + [("plain", 0.05, None)] * 3
+        ids = []
+        for i, (what, d, ttl) in enumerate(plan):
+            ids.append(f"t{i}")
+            await w.job("act", f"t{i}", {"do": "ok", "d": d}, ttl=timedelta(seconds=ttl) if ttl else None, timeout=timedelta(seconds=30), store_result=False).enqueue()
+        worker = w.worker([r], tasks_limit=limit, graceful_shutdown_time=5.0, handle_signals=[__import__("signal").SIGUSR1])
+        plain = {f"t{i}" for i, (what, _d, _t) in enumerate(plan) if what != "short-lived"}
+
+        def done():
+            return plain <= {e["id"] for e in w.log.events if e.get("k") == "actor_end"}
+
+        info = await run_worker(w, worker, until=done, horizon=20.0, poll=0.1)
+        stats["entries_judged"] += len(w.events("actor_start"))
+        stats["ttl_expired_while_waiting_for_a_slot"] += 1
+        fps.add(f"{kind}/ttl_wait/{limit}")
+        if info["exc"] is not None or not info["returned"]:
+            out.append(V("stall", kind, "worker-run", f"Worker.run: exc={info['exc']!r} returned={info['returned']}"))
+        missing = sorted(plain - {e["id"] for e in w.log.events if e.get("k") == "actor_end"})
+        if missing:
+            out.append(V("stall", kind, f"limit={limit}/after-expired-message", f"{missing} not executed within 20 s after a message whose time-to-live ran out while it waited for a slot; state {[w.rig.snapshot().get(m) for m in missing]}"))
+        for e in w.events("actor_start"):
+            if e["inflight"] > limit:
+                out.append(V("over_limit", kind, f"limit={limit}/ttl_wait", f"{e['inflight']} in progress with tasks_limit={limit}"))
+                break
+        stats["unknown_server_commands"] += w.rig.unknown_commands()
+    finally:
+        await w.close()
 
 
 async def scenario(loop, case, out, stats, fps, samples):
@@ -297,7 +341,10 @@ def run_case(case):
     if case.get("type") == "threads":
         threads_case(case, out, stats, fps)
         return {"fp": None, "fps": sorted(fps), "viol": out[:4], "stats": dict(stats)}
-    res = vl.run(lambda loop: scenario(loop, case, out, stats, fps, samples), max_steps=6_000_000, seed=case["seed"])
+    if case.get("type") == "ttl_wait":
+        res = vl.run(lambda loop: ttl_wait_scenario(loop, case, out, stats, fps), max_steps=6_000_000, seed=case["seed"])
+    else:
+        res = vl.run(lambda loop: scenario(loop, case, out, stats, fps, samples), max_steps=6_000_000, seed=case["seed"])
     if res.exc is not None:
         if isinstance(res.exc, vl.Deadlock):
             out.append(V("stall", case["kind"], "deadlock", f"nothing scheduled and nothing ready: {res.exc}"))
